@@ -330,6 +330,26 @@ class Script:
             os.rename(self.d.spec_path + '.tmp', self.d.spec_path)
             os.environ['PWV_SPEC'] = self.d.spec_path
             return {'ret': True}
+        if o == 'land_inproc':
+            # arm the tracer inside this (parent) process: landing / preemption points of the parent's own threads
+            import tempfile
+            sys.path.insert(0, os.path.join(os.environ.get('PWV_HOME', '/verif'), 'inject'))
+            import pwv_inject
+            self.land_dir = tempfile.mkdtemp(prefix='pwv_inproc_', dir=self.d.base)
+            spec = {'run_dir': self.land_dir, 'arm': op['arm'], 'files': op.get('files', ['pyworkers/']), 'events': op.get('events', []), 'inprocess': True}
+            pwv_inject.configure(spec)
+            self.inproc = True
+            return {'ret': True}
+        if o == 'land_inproc_report':
+            import pwv_inject
+            st = pwv_inject.state() or {}
+            pwv_inject.configure(None)
+            self.inproc = False
+            return {'ret': {'sites': st.get('sites', []), 'landed': st.get('landed', [])}}
+        if o == 'land_release':
+            with open(os.path.join(self.land_dir, 'release.%d' % op.get('n', 1)), 'w') as f:
+                f.write('go')
+            return {'ret': True}
         if o == 'land_off':
             import json as _json
             with open(self.d.spec_path, 'w') as f:
@@ -794,6 +814,12 @@ class Script:
 
     def cleanup(self):
         left = []
+        if getattr(self, 'inproc', False):
+            try:
+                import pwv_inject
+                pwv_inject.configure(None)
+            except Exception:  # noqa
+                pass
         for c in getattr(self, 'contexts', []):
             try:
                 if c.is_alive():
